@@ -431,6 +431,8 @@ def crc_fold(data):
         if not any(_is_sym(e) for e in elems):
             from spec.checksums import crc16_modbus
             return crc16_modbus(bytes(elems))
+        if EXACT_CRC["on"]:
+            return SymbolicInt(_crc_exact_z([_z(e) for e in elems]))
         space = context_statespace()
         f = _step_fn()
         st = z3.IntVal(0xFFFF)
@@ -464,6 +466,32 @@ def _make_crc_contract(real):
             lo, hi = _split16_z(space, st)
             return SymbolicInt(lo * 256 + hi)
     return computeCRC
+
+
+def _crc_exact_z(zs):
+    """CRC-16/Modbus register (un-swapped) of byte terms zs as a z3 Int term via 16-bit bit-vector steps
+    (the bit-serial definition K1 proves the real loop equal to); exact, for short inputs"""
+    from spec.checksums import z3_crc_step
+    st = z3.BitVecVal(0xFFFF, 16)
+    for zb in zs:
+        st = z3_crc_step(st, z3.ZeroExt(8, z3.Int2BV(zb, 8)), 16)
+    return z3.BV2Int(st, False)
+
+
+def _make_crc_exact_contract(real):
+    def computeCRC(data):
+        elems = _elements(data)
+        with NoTracing():
+            if not any(_is_sym(e) for e in elems):
+                return real(bytes(elems))
+            st = _crc_exact_z([_z(e) for e in elems])
+            space = context_statespace()
+            lo, hi = _split16_z(space, st)
+            return SymbolicInt(lo * 256 + hi)
+    return computeCRC
+
+
+EXACT_CRC = {"on": False}
 
 
 def _make_lrc_contract(real):
@@ -671,6 +699,10 @@ def install(INSTALLED, contracts=()):
     INSTALLED["models"].append("x & ~c (Python ~c = -c-1) modelled bitwise as x_k AND NOT c_k for 0 <= x, c < 2**16 / 2**32")
     INSTALLED["models"].append("int |, ^, & (both symbolic) on values in [0,2**16) or [0,2**32): per-bit Boolean expansion (x == sum b_k 2^k) and bitwise connectives; outside that range concretised")
     import pymodbus.utilities as U
+    if "crc-exact" in contracts:
+        EXACT_CRC["on"] = True
+        _PATCH_REGISTRATIONS[U.computeCRC] = _make_crc_exact_contract(U.computeCRC)
+        INSTALLED["contracts"].append("computeCRC(data) = the bit-serial CRC-16/0xA001 definition as a z3 bit-vector term over the symbolic bytes, byte-swapped (exact; lemma K1 proves the real table-driven loop equal to it)")
     if "crc" in contracts:
         _PATCH_REGISTRATIONS[U.computeCRC] = _make_crc_contract(U.computeCRC)
         INSTALLED["contracts"].append("computeCRC(data) = swap16(fold(stepU, 0xFFFF, data)), stepU uninterpreted Int x Int -> [0,65535] (justified by lemma K1)")
